@@ -422,6 +422,9 @@ impl World {
     pub fn on_store(&mut self, kind: u32, q: u16, index: u16) {
         self.ev(0x20 + kind as u8, q as u64, index as u64);
         self.store_events += 1;
+        if (kind as usize) < 5 {
+            self.store_kinds[kind as usize] += 1;
+        }
         if let Some((gq, seen)) = self.add_guard {
             if gq == q {
                 if seen {
